@@ -14,7 +14,7 @@ import numpy as np
 from hypothesis import strategies as st
 
 from vlib.runner import Sub, Violation, Reject, ok
-from vlib.util import fl, rng_of, crandom, reldiff, maxabs
+from vlib.util import fl, rng_of, crandom, maxabs
 from vlib import wbsys, spinsoc
 
 PROPERTY_ID = "C33"
